@@ -44,7 +44,10 @@ def shards(tier, seed):
             'max_arity': 4 if tier == 'quick' else 6} for _ in range(n - 1)]
     out.append({'kind': 'tables', 'budget_s': budget})
     out[0] = {'kind': 'library', 'count': 60 if tier == 'quick' else 1500, 'budget_s': budget}
-    return out
+    _out = out
+    if tier == 'thorough':
+        _out.append({'kind': 'suite', 'select': ['tests'], 'budget_s': 900})
+    return _out
 
 
 # ------------------------------------------------------------------ oracle helpers
@@ -441,6 +444,11 @@ def run_library(spec, ctx):
 
 def run_shard(spec, ctx):
     install(ctx)
+    if spec.get('kind') == 'suite':
+        from vt import suite
+        import sys
+        suite.run(sys.modules[__name__], ctx, select=spec.get('select'))
+        return
     if spec['kind'] == 'library':
         run_library(spec, ctx)
         return
